@@ -853,13 +853,16 @@ fn inner_outcome(r: &Result<HandleInnerData<'_>, ServerAction<'_>>) -> (bool, u8
     }
 }
 handle_harness_one! { fam = false;
-    // a client on the deny list: Ignore action => nothing at all (not even parsed); Deny action => at
-    // most a DENY kiss, never time; the rate limiter is not consulted; the allow list does not matter
+    // a client on the deny list sending a plain client-mode request: Ignore action => nothing at all
+    // (not even parsed); Deny action => at most a DENY kiss, never time; the rate limiter is not
+    // consulted; the allow list does not matter
     fn c15_b_slice_denylisted_client() {
         let (mut srv, cfg) = any_server(0);
         let ip = any_ip();
         arm_ghosts(&srv, ip, false);
         IN_DENY.store(true, Relaxed);
+        GEN_KIND.store(GEN_PLAIN, Relaxed);
+        MODE.store(3, Relaxed);
         let msg = [0x23u8; MSG_MAX];
         let mut stats = RecStats;
         let r = srv.handle_inner(ip, NtpTimestamp::from_bits(kani::any()), &msg[..], &mut stats);
@@ -932,6 +935,34 @@ handle_harness_one! { fam = false;
         assert!(b != B_NTS_TIME && b != B_NTS_NAK && b != B_NTS_DENY, "no NTS answer to a plain request");
         kani::cover!(answered && what == S_TIME, "time served");
         kani::cover!(!version_accepted(&cfg), "non-accepted version");
+        core::mem::forget(srv);
+    }
+}
+
+handle_harness_one! { fam = false;
+    // C21, NTS flag: a client-mode request whose NTS fields fail to decrypt and that IS answered (NTS NAK,
+    // or DENY for a client on a list with action deny) is accounted as an NTS request
+    fn c21_b_slice_answered_nts_failure_is_flagged() {
+        let (mut srv, _cfg) = any_server(0);
+        let ip = any_ip();
+        arm_ghosts(&srv, ip, false);
+        CACHE_RES.store(true, Relaxed);
+        GEN_KIND.store(GEN_DECRYPT_ERR, Relaxed);
+        MODE.store(3, Relaxed);
+        let msg = [0x23u8; MSG_MAX];
+        let mut stats = RecStats;
+        let r = srv.handle_inner(ip, NtpTimestamp::from_bits(kani::any()), &msg[..], &mut stats);
+        let (answered, what) = inner_outcome(&r);
+        let flagged = matches!(&r, Ok(d) if d.nts);
+        core::mem::forget(r);
+        if answered {
+            assert!(what == S_NAK || what == S_DENY, "never time after a decrypt failure");
+            assert!(flagged, "NTS flag set for every NTS request that is answered");
+        } else {
+            assert!(REG_CALLS.load(Relaxed) == 1, "an ignored request is registered by handle_inner itself");
+        }
+        kani::cover!(answered && what == S_DENY, "DENY after a decrypt failure (listed client)");
+        kani::cover!(answered && what == S_NAK, "NTS NAK");
         core::mem::forget(srv);
     }
 }
